@@ -185,7 +185,7 @@ fn firsts(rep: &Report, _tier: Tier) {
                 acc.outcome(&format!("encap:{}:{}", out.class(), regime(p, b)));
                 if let EncOut::Fragmented(..) = out {
                     acc.compared += 1;
-                    let i = FirstIn { pdu: &pd, frag_id: 0xA7, pt: 0x0800, label: l, b, may_substitute: prior.may_substitute(l), exts: &[] };
+                    let i = FirstIn { pdu: &pd, frag_id: 0xA7, pt: 0x0800, label: l, b, may_substitute: prior.may_substitute(l), exts: &[], mand: None };
                     let (fails, _) = wf_first(&i, &out, &buf, sent, &FastCrc);
                     for (cl, txt) in fails {
                         if !matches!(cl.as_str(), "ctx-count" | "payload" | "frag-id" | "ctx-crc") {
